@@ -48,6 +48,31 @@ def run(ck: Checker, prog: Program, tier: str):
     ck.guard(_r3, ck, prog)
     ck.guard(_r4, ck, prog)
     ck.guard(_transforms, ck, prog)
+    # Parseval / normalisation needs the whole window in the transform: zero padding, never truncation
+    with ck.borrow(C01, "C17.R1+"):
+        ck.guard(C01._r7, ck, prog)
+    ck.guard(_settings_delivery, ck, prog)
+
+
+def _settings_delivery(ck: Checker, prog: Program):
+    """The diffuse-field and PSD settings constructors store what they are given (taper, smoothing, ...): the two spectral
+    paths agree only if both honour the same requested settings."""
+    from .c15 import delivers
+    n = 0
+    for cname in ("HvsrDiffuseFieldProcessingSettings", "PsdProcessingSettings"):
+        c = prog.cls(cname)
+        init = c.methods.get("__init__")
+        if init is None:
+            continue
+        for p_ in init.params[1:]:
+            n += 1
+            if delivers(prog, c, p_):
+                ck.ok("C17.R3", init.qualname, f"constructor argument {p_} is stored")
+            else:
+                ck.violation("C17.R3", init.qualname, f"constructor argument {p_}",
+                             f"`{p_}` handed to {cname}(...) is not stored (the base-class default is used instead): the diffuse-field / PSD paths would not use the requested setting",
+                             loc=init.loc())
+    ck.floor("C17.R3", n, 6, "constructor arguments of the diffuse-field / PSD settings")
 
 
 def _r1(ck: Checker, prog: Program):
